@@ -1,6 +1,7 @@
 import Verif.Lemmas.C13Generic
 import Verif.Lemmas.C09
 import Verif.Lemmas.C16
+import Verif.Lemmas.C17Extra
 /-! # C17 — Evaluation never panics or hangs on any query or log content
 
 **Partial by nature** (DESIGN.md §5 C17).  What a model can carry: every function of the Lean model
@@ -46,5 +47,34 @@ theorem C17_accepted_step_terminates (step : Option (List Nat)) (start end_ d : 
     (h : Flags.parseStep step start end_ = some d) (hse : start ≤ end_) :
     (grid start end_ d).length = ((end_ - start) / d).toNat + 1 :=
   Metric.C09.grid_length start end_ d (Flags.C16.step_positive step start end_ d h) hse
+
+/-- **C17 (no index out of range in `quantile`)**: for a parameter in [0,1] and a non-empty window both
+indices the code reads (`values[int(lowerIndex)]`, `values[int(upperIndex)]`) lie inside the sorted window -/
+theorem C17_quantile_indices_in_range (p : Rat) (vs : List Val) (rs : List Rat)
+    (hne : vs ≠ []) (h0 : 0 ≤ p) (h1 : p ≤ 1) (hr : ratsOf vs = some rs) :
+    let sorted := rs.foldl (fun acc x => insertRat x acc) []
+    let rank : Rat := p * ((sorted.length : Rat) - 1)
+    let lo : Nat := rank.floor.toNat
+    let hi : Nat := min (sorted.length - 1) (lo + 1)
+    lo < sorted.length ∧ hi < sorted.length :=
+  C17Extra.quantileVal_indices p vs rs hne h0 h1 hr
+
+/-- **C17 (the range iterator makes one step per grid point)**: it cannot loop -/
+theorem C17_rangeRun_one_step_per_grid_point (op : RangeOp) (param : Option Rat) (rangeNs offsetNs : Int)
+    (hasUnwrap : Bool) (regroup : AggLabels → AggLabels) (ts : List Int) (w pend : List Smp) :
+    (rangeRun op param rangeNs offsetNs hasUnwrap regroup ts w pend).length = ts.length :=
+  C17Extra.rangeRun_length op param rangeNs offsetNs hasUnwrap regroup ts w pend
+
+/-- **C17 (the window buffer is bounded by what was read)**: evicting and refilling never holds more
+samples than the window and the unread input held before -/
+theorem C17_window_bounded (ws we : Int) (w pend : List Smp) :
+    (fill ws we (clear ws w) pend).1.length + (fill ws we (clear ws w) pend).2.length ≤ w.length + pend.length :=
+  C17Extra.step_length_le ws we w pend
+
+/-- **C17 (the merge ends)**: the heap-based merge of the container logs emits exactly as many records as
+there are, so its loop runs once per record and stops -/
+theorem C17_merge_terminates (srcs : List (List Merge.Rec)) :
+    (HeapMerge.merge srcs).length = srcs.flatten.length :=
+  C17Extra.merge_length srcs
 
 end C17
